@@ -22,7 +22,7 @@ use rustc_middle::mir::{
     self, AggregateKind, BasicBlock, Body, Const, ConstValue, Operand, Place, PlaceElem, Rvalue,
     StatementKind, TerminatorKind,
 };
-use rustc_middle::ty::{self, Ty, TyCtxt};
+use rustc_middle::ty::{self, Ty, TyCtxt, TypeVisitableExt};
 use rustc_span::Span;
 
 mod json;
@@ -804,6 +804,15 @@ fn dump<'tcx>(tcx: TyCtxt<'tcx>) -> J {
                     ]));
                 }
                 v.push(("items", J::Arr(items)));
+                if !self_ty.has_param() && !self_ty.has_escaping_bound_vars() && !self_ty.has_free_regions() {
+                    let env = ty::TypingEnv::fully_monomorphized();
+                    if let Ok(layout) = tcx.layout_of(env.as_query_input(self_ty)) {
+                        v.push(("size", J::Num(layout.size.bytes() as i128)));
+                        v.push(("align", J::Num(layout.align.abi.bytes() as i128)));
+                    }
+                    v.push(("copy", J::Bool(tcx.type_is_copy_modulo_regions(env, self_ty))));
+                    v.push(("needs_drop", J::Bool(self_ty.needs_drop(tcx, env))));
+                }
                 let preds: Vec<J> = tcx
                     .predicates_of(did)
                     .instantiate_identity(tcx)
